@@ -440,7 +440,7 @@ impl Prop for C19 {
                 let in_key = at < kd + 4;
                 // the first few group elements drawn after the embedded key pair (bases, strides,
                 // ...) get the group-element faults in every tier
-                let near_key = at < kd + 16;
+                let near_key = at < kd + 64;
                 let fill_here = dl.get(at) == Some(&crate::rng::DrawKind::Fill(96));
                 let visit = in_key || tier == Tier::Thorough || sch.chance(1, 10);
                 if !visit {
